@@ -46,15 +46,10 @@ Definition quiet_step (st : lstate) (c : byte) : option lstate :=
     else if c =? 92 then Some (LStr (c :: acc) (negb esc))
     else Some (LStr (c :: acc) false)
   | LBlock acc esc qc wc reached lead =>
-    if (c =? 32) || (c =? 9) || (c =? 13) || (c =? 10) then Some (LBlock (c :: acc) false 0 (S wc) reached lead)
-    else if c =? 34 then
-      (if esc then Some (LBlock (c :: acc) false qc wc reached lead)
-       else match qc with
-            | S (S O) => None
-            | _ => Some (LBlock (c :: acc) false (S qc) wc reached lead)
-            end)
-    else if c =? 92 then Some (LBlock (c :: acc) (negb esc) 0 0 reached lead)
-    else Some (LBlock (c :: acc) false 0 0 true (if reached then lead else wc))
+    match block_step acc esc qc wc reached lead c with
+    | BNext acc' esc' qc' wc' reached' lead' => Some (LBlock acc' esc' qc' wc' reached' lead')
+    | BClose _ => None
+    end
   | _ => None
   end.
 Fixpoint quiet_run (st : lstate) (s : bytes) : option lstate :=
@@ -78,8 +73,17 @@ Definition float_ok (raw : bytes) : bool :=
 (* string contents that survive being quoted again *)
 Definition str_ok (raw : bytes) : bool :=
   match quiet_run (LStr [] false) raw with Some (LStr _ false) => true | _ => false end.
+(* block string contents that survive being printed again: no unescaped closing delimiter inside, no leading
+   and no trailing white space (contents a parsed document can carry are of this form: the lexer cuts both
+   off).  A content ending in a quote or a backslash is fine since the printer separates it from the closing
+   delimiter (fix rt-block-string-edge); it was excluded before. *)
 Definition block_ok (raw : bytes) : bool :=
-  match quiet_run (LBlock [] false 0 0 false 0) raw with Some (LBlock _ false O O _ O) => true | _ => false end.
+  match quiet_run (LBlock [] false 0 0 false 0) raw with
+  | Some (LBlock _ _ qc wc reached lead) =>
+    let fire := match qc with O => false | _ => true end in
+    Nat.eqb (settled_lead fire wc reached lead) 0 && Nat.eqb (settled_wc fire wc) 0
+  | _ => false
+  end.
 
 Definition is_keyword_name (n : bytes) : bool :=
   bytes_eqb n #"true" || bytes_eqb n #"false" || bytes_eqb n #"null".
@@ -293,6 +297,18 @@ Definition schema_equiv_diag (A C : schema) : list name :=
 Definition with_base (S : schema) : schema :=
   {| s_query := s_query S; s_mutation := s_mutation S; s_subscription := s_subscription S;
      s_types := s_types S ++ base_scalars; s_directives := s_directives S ++ base_public_directives |}.
+
+(* a document WITHOUT schema definition ([blk = false]; it declares no roots): the root operation types are the
+   object types named Query, Mutation and Subscription (GraphQL, "Default Root Operation Type Names").  With a
+   schema definition the roots are the declared ones and nothing else. *)
+Definition has_object_named (n : name) (S : schema) : bool :=
+  existsb (fun t => kind_eqb (td_kind t) KObject && bytes_eqb (td_name t) n) (s_types S).
+Definition default_root (n : name) (S : schema) : option name := if has_object_named n S then Some n else None.
+Definition described (blk : bool) (S : schema) : schema :=
+  if blk then S else
+  {| s_query := match default_root #"Query" S with Some n => n | None => [] end;
+     s_mutation := default_root #"Mutation" S; s_subscription := default_root #"Subscription" S;
+     s_types := s_types S; s_directives := s_directives S |}.
 
 (* ------------------------------------------------------------------ exactness of introspection data *)
 Definition sp_kind (k : type_kind) : ikind :=
@@ -532,8 +548,6 @@ Definition url_of (ds : list directive) : option value :=
 Definition str_special (v : option value) : bool :=
   match v with Some (VStr raw _) => existsb special_char raw | _ => false end.
 Definition is_kind (k : type_kind) (t : type_def) : bool := kind_eqb (td_kind t) k.
-Definition has_object_named (n : name) (S : schema) : bool :=
-  existsb (fun t => is_kind KObject t && bytes_eqb (td_name t) n) (s_types S).
 
 (* what the converter cannot represent.  (interface-implements, repeatable, inputvalue-deprecated and
    specified-by were here until the converter was repaired; see ModelV0.v and the historical
